@@ -236,6 +236,15 @@ func runOne(sp solverSpec, file string, timeoutS int, extra ...string) (status, 
 
 // Solve runs the portfolio on one query: z3 4.8.12, then z3 5.1.0, then cvc5. all=true runs every back end (thorough tier).
 func Solve(dir, name, script string, timeoutS int, all bool) SolverResult {
+	return SolveWith(solvers, dir, name, script, timeoutS, all)
+}
+
+// SolveVac: cheap satisfiability probe for vacuity checks (both z3 versions, no cvc5).
+func SolveVac(dir, name, script string, timeoutS int) SolverResult {
+	return SolveWith(solvers[:2], dir, name, script, timeoutS, false)
+}
+
+func SolveWith(solvers []solverSpec, dir, name, script string, timeoutS int, all bool) SolverResult {
 	file := filepath.Join(dir, name+".smt2")
 	if err := os.WriteFile(file, []byte(script), 0o644); err != nil {
 		return SolverResult{Status: "error", Output: err.Error()}
